@@ -408,7 +408,7 @@ Print Assumptions C05_path_text_closed.
 (* compileSimpleFieldInfo recovers the item: output name = the name the statement gives the column *)
 Theorem C05_item_names : forall i, si_wf i ->
   fi_out (fs_compile (si_spec i)) = si_name i /\
-  fi_field (fs_compile (si_spec i)) = match si_alias i, i with None, SLit _ c _ => c | _, _ => si_text i end.
+  fi_field (fs_compile (si_spec i)) = si_text i.
 Proof. exact fs_compile_names. Qed.
 Print Assumptions C05_item_names.
 
@@ -458,11 +458,12 @@ Proof.
     intros H; repeat (destruct H as [H|H]; [discriminate|]); exact H.
 Qed.
 
-(* refuted for a string literal WITHOUT alias that contains ':' (the spec is the bare content, so its first ':'
-   is taken for the separator): SELECT 's:a' FROM stream on {s:"txt"} has the column s:a AND a column a = "txt" *)
-Example C05_unaliased_colon_literal_extra_column :
+(* since the repair of F71 a string literal WITHOUT alias that contains ':' is one column (before: the spec was the
+   bare content, its first ':' was taken for the separator, and SELECT 's:a' FROM stream on {s:"txt"} had the
+   column s:a AND a column a = "txt") *)
+Example C05_unaliased_colon_literal_one_column :
   let s := [115]%N in let a := [97]%N in let sa := [115;58;97]%N in let txt := [116;120;116]%N in
   let q := {| sq_items := [SLit 39 sa None]; sq_where := None |} in
-  sdirect q [(s, JS (VStr txt))] = SDRow [(sa, CVal (JS (VStr sa))); (a, CVal (JS (VStr txt)))] /\
-  chk_columns (sq_columns q) [sa; a] = Some (ColExtra a).
-Proof. vm_compute. split; reflexivity. Qed.
+  sdirect q [(s, JS (VStr txt))] = SDRow [(sa, CVal (JS (VStr sa)))] /\
+  chk_columns (sq_columns q) [sa] = None /\ si_wf (SLit 39 sa None).
+Proof. vm_compute. repeat split; try reflexivity; try (left; reflexivity); try discriminate. intros H; repeat (destruct H as [H|H]; [discriminate|]); exact H. Qed.
